@@ -138,7 +138,9 @@ class C19(Property):
             'contents of 5-70 KB with lines of 4095..20000 bytes read with block sizes 1000, 4096, 8191, 8192, 65536; the small '
             'contents again on real files of five kinds (rb, rb unbuffered, r+b, r utf-8, r utf-8 newline=\'\') and with the file '
             'position moved away from 0 before the reader gets the file (case key pre).')
-    ASSUMPTIONS = ['text is a sequence of Unicode scalar values (no lone surrogates); text-mode files hold valid UTF-8',
+    ASSUMPTIONS = ['text is a sequence of Unicode scalar values (no lone surrogates); text-mode files are opened as utf-8 and hold valid '
+                   'UTF-8, or (mode tl) are opened as latin-1 - there reverse_iter_lines fails on the code as it is: known finding '
+                   'C19-reverse-ignores-encoding, outside the model until the repair is in (probe ENC_OK)',
                    'a file object is its content plus a position: seek/read of a regular file or BytesIO return exactly the requested bytes',
                    'json.loads is modelled as a parameter; the driver instantiates it with a recogniser for integers, '
                    'escape-free strings, {} and [] and the harness only sends JSONL contents over a byte alphabet on which both agree',
@@ -270,6 +272,7 @@ class C19(Property):
             'def strBreakSet : List Nat := [%s]\n\n'
             'def bytesBreakSet : List Nat := [%s]\n\n'
             'end C19.Generated\n' % (', '.join(map(str, sset)), ', '.join(map(str, bset))))
+        C19.ENC_OK = self.probe_encoding_honoured()
         self._eof_ok = self.probe_align_eof()
         C19.EOF_OK = self._eof_ok
         out['C19_RelSeek.lean'] = (
@@ -283,6 +286,19 @@ class C19(Property):
         return out
 
     EOF_OK = False
+    ENC_OK = False
+
+    @staticmethod
+    def probe_encoding_honoured():
+        """does reverse_iter_lines decode the lines of a latin-1 text file as latin-1?  (the code as it is always
+        uses utf-8: known finding C19-reverse-ignores-encoding; repaired by f1b0523 on r3-c19-work)"""
+        from boltons.jsonutils import reverse_iter_lines
+        try:
+            with time_limit(2):
+                f = io.TextIOWrapper(io.BytesIO(b'\xe9\nb'), encoding='latin-1')
+                return list(reverse_iter_lines(f)) == ['b', '\xe9']
+        except (Exception, CaseTimeout):
+            return False
 
     @staticmethod
     def probe_align_eof():
@@ -459,6 +475,8 @@ class C19(Property):
         yield from self.small_indent(4 if th else 3, skip=2)
         for _ in range(8000 if th else 800):
             yield self.random_indent(rng)
+        # ---- rl on text files in a single-byte encoding
+        yield from self.latin_rl(5 if th else 4, skip=3)
         # ---- js: JSONLIterator with rel_seek
         yield from self.small_js(3 if th else 2, extra=True)
         for _ in range(6000 if th else 800):
@@ -499,6 +517,7 @@ class C19(Property):
         yield from self.small_rf(3)
         yield from self.small_indent(2)
         yield from self.small_js(2)
+        yield from self.latin_rl(3)
         for _ in range(200 if self.thorough else 30):
             yield self.big_rl(rng)
 
@@ -712,6 +731,15 @@ class C19(Property):
                     yield {'k': 'jl', 'c': hx(c), 'mode': mode, 'ign': 1, 'pre': pre}
 
     BIN_MODES = ('b', 'bf', 'bu', 'br')
+    LATIN_UNITS = [b'a', b'\xe9', b'\xc3\xa9', b'\n', b'\r\n', b'\xff', b'\x85']
+
+    def latin_rl(self, nunits, skip=0):
+        """reverse_iter_lines on a text file opened with encoding='latin-1' (mode 'tl'): any byte is a character"""
+        for n in range(skip + 1 if skip else 0, nunits + 1):
+            for units in itertools.product(self.LATIN_UNITS, repeat=n):
+                c = b''.join(units)
+                for bs in sorted({1, 2, len(c) + 1}):
+                    yield {'k': 'rl', 'c': hx(c), 'bs': bs, 'mode': 'tl'}
 
     def small_rf(self, nunits, skip=0):
         """reverse_iter_lines(..., preseek=False) with the file position at every offset 0..len (binary files)"""
@@ -1012,6 +1040,10 @@ class C19(Property):
         k = case['k']
         if k == 'sl':
             return 'sl ' + show_cps(case['t'])
+        if k == 'rl' and case['mode'] == 'tl':
+            # latin-1 decodes byte by byte (C19.reverse_lines_single_byte_codec): the byte lines are the text lines;
+            # outside the model while the code ignores the encoding of the file (known finding)
+            return 'rl %s %d' % (hx(content(case)), case['bs']) if self.ENC_OK else None
         if k == 'rl':
             # text mode: the model decodes every line too
             return '%s %s %d' % ('rt' if case['mode'][0] == 't' else 'rl', hx(content(case)), case['bs'])
@@ -1059,6 +1091,8 @@ class C19(Property):
                 return raw, raw.close
             f = io.TextIOWrapper(raw, encoding='utf-8')
             return f, (lambda: None)
+        if mode == 'tl':      # a text file in a single-byte encoding
+            return io.TextIOWrapper(io.BytesIO(content), encoding='latin-1'), (lambda: None)
         path = os.path.join(self.tmpdir(), 'f.txt')
         with open(path, 'wb') as w:
             w.write(content)
@@ -1244,6 +1278,13 @@ class C19(Property):
             return show_lines(obs['lines'], show_cps) + '|' + show_lines([cps(l) for l in text.splitlines()], show_cps)
         if k == 'in':
             return 'X' + obs['exc'] if 'exc' in obs else show_cps(obs['text'])
+        if k == 'rl' and case['mode'] == 'tl':
+            def lat(l):
+                try:
+                    return hx(unhx(l[1]).decode('utf-8').encode('latin-1')) if l[0] == 's' else '!' + l[0] + l[1]
+                except UnicodeError:
+                    return '!s' + l[1]
+            return show_lines(obs['lines'], lat) + ('!' + obs['exc'] if 'exc' in obs else '')
         if k == 'rl' and case['mode'][0] == 't':
             s = show_lines(obs['lines'], lambda l: show_cps(cps(unhx(l[1]).decode('utf-8'))) if l[0] == 's' else '!' + l[0] + l[1])
             return s + ('!' + obs['exc'] if 'exc' in obs else '')
@@ -1271,6 +1312,13 @@ class C19(Property):
         self.stats[k] = self.stats.get(k, 0) + 1
         if obs.get('exc') == 'OutsideDomain':
             return None
+        if k == 'rl' and case['mode'] == 'tl' and obs.get('exc') == 'UnicodeDecodeError' and 'lines' not in obs:
+            c = content(case)
+            if not all(self.decodable(l) for l in self.expected_lines_cr(c)):
+                # exactly what decoding the lines as utf-8 instead of the file's encoding does
+                return Failure('rl_encoding_ignored', 'reverse_iter_lines on a text file opened with encoding=latin-1, content %s: '
+                               'raises UnicodeDecodeError (the lines are decoded as utf-8 whatever the encoding of the file)'
+                               % self.brief(c))
         if 'exc' in obs:
             return Failure('raises', '%s case raised %s' % (k, obs['exc']))
         if k == 'sl':
@@ -1326,6 +1374,11 @@ class C19(Property):
                 text, margin, nl, '' if case['key'] == 'bool' else ', key=always', got, want))
         return None
 
+    @staticmethod
+    def expected_lines_cr(c):
+        """what bytes.splitlines-style reading gives (lone CR also a break): the pieces the code decodes one by one"""
+        return c.splitlines()
+
     def oracle_rl(self, case, obs):
         c = content(case)
         if case['k'] == 'rf':
@@ -1346,6 +1399,15 @@ class C19(Property):
             return None
         want = self.expected_lines(c)[::-1]
         self._nt = len(want) >= 2 and case['bs'] < len(c)
+        if case['mode'] == 'tl':
+            # the characters of the file are its bytes read as latin-1 (got_b holds the yielded str as utf-8)
+            want_l = [l.decode('latin-1').encode('utf-8') for l in want]
+            if got_b != want_l:
+                tag = 'rl_encoding_ignored' if got_b == want and all(self.decodable(l) for l in want) else 'rl_lines'
+                return Failure(tag, 'reverse_iter_lines on a text file opened with encoding=latin-1, content %s, blocksize=%d: '
+                               'yields %s, expected %s' % (self.brief(c), case['bs'],
+                               [l.decode('utf-8') for l in got_b], [l.decode('latin-1') for l in want]))
+            return None
         if got_b != want:
             return Failure('rl_lines', 'reverse_iter_lines(%s, blocksize=%d, %s) = %s, expected %s'
                            % (self.brief(c), case['bs'], case['mode'], self.brief_lines(got_b), self.brief_lines(want)))
@@ -1474,6 +1536,12 @@ class C19(Property):
                            % (case['mode'], case['ign'], self.brief(c), self.brief_objs(obs['rev']), obs['rexc'], self.brief_objs(want_r), bool(re_)))
         return None
 
+    def finding_rl_encoding_ignored(self, case, failure):
+        """ONLY: a text file in another encoding than utf-8 (mode 'tl'), a non-ASCII byte, and the observation is exactly
+        what decoding each line as utf-8 gives (UnicodeDecodeError, or the utf-8 reading of bytes that happen to be valid)"""
+        return (failure.tag == 'rl_encoding_ignored' and case.get('k') == 'rl' and case.get('mode') == 'tl'
+                and any(b >= 0x80 for b in content(case)))
+
     def finding_jl_break_dependent(self, case, failure):
         """ONLY: binary mode, a line with NUL bytes on which json.loads' verdict depends on the trailing line
         break, forward = the with-break reading and reverse = the without-break reading"""
@@ -1540,8 +1608,8 @@ class C19(Property):
                 for i in range(len(case[key])):
                     yield dict(case, **{key: case[key][:i] + case[key][i + 1:]})
             return
-        text = case['mode'][0] == 't'
-        if len(case['mode']) > 1:
+        text = case['mode'][0] == 't' and case['mode'] != 'tl'
+        if len(case['mode']) > 1 and case['mode'] != 'tl':
             yield dict(case, mode=case['mode'][0])
         if case.get('pre'):
             yield {kk: v for kk, v in case.items() if kk != 'pre'}
